@@ -19,7 +19,8 @@ func factsC16() {
 	if fn := fnOf(mx, "switchboard.send"); fn != nil {
 		evs := events(fn)
 		iw := idx(evs, 0, "call", `^sb\.valve\.txWait\(len\(data\)\)$`)
-		boolFact(g, "txWaitBeforeWrite", iw == 0, "send: sb.valve.txWait(len(data)) is the first statement")
+		okPro, _ := sendPrologue(fn)
+		boolFact(g, "txWaitBeforeWrite", iw >= 0 && okPro, "send: begins with the single unconditional sb.valve.txWait(len(data)), bare or inside the one-at-a-time turnstile")
 		nWrite := count(evs, "call", `^conn\.Write\(data\)$`)
 		nAssign := count(evs, "assign", `^n, err = conn\.Write\(data\)$`)
 		iAdd := idx(evs, 0, "call", `^sb\.valve\.AddTx\(int64\(n\)\)$`)
